@@ -178,3 +178,57 @@ def maximal_histories(steps):
         if len(k) >= 2:
             non_max.add(k[:-2])
     return [s for k, s in keys.items() if k not in non_max]
+
+
+def program_source_heap(prog, caps, syncs, launch_targets):
+    """Same programs, but every value that crosses a channel is a freshly built string, every fiber body is a
+    closure made by a factory (capturing a fresh string) and launched straight from the temporary: the only
+    references to these objects are channel buffers, parked fibers' stacks and frames' captures (C05)."""
+    lines, prog, nf, params = render_program(prog, caps, syncs)
+
+    def body(f, ops, indent):
+        out = []
+        for i, o in enumerate(ops, start=1):
+            k, c = o["k"], o["c"]
+            if k == "send":
+                out.append(f'{indent}c{c} <- "s" + {10 * (f + 1) + i}.str();')
+            elif k == "recv":
+                out.append(f'{indent}print("f{f}", <- c{c});')
+            elif k == "close":
+                out.append(f"{indent}c{c}.close();")
+            elif k == "launch":
+                t = launch_targets.get((f, i))
+                if t is None:
+                    t = f
+                out.append(f'{indent}launch mk{t}("T" + {t}.str())({params});')
+            elif k == "end":
+                break
+        return out
+
+    fids = sorted(set(prog) | set(launch_targets.values()))
+    for f in fids:
+        if f == 0:
+            continue
+        lines.append(f"fn mk{f}(tag) {{")
+        lines.append(f"  let junk = [tag, tag];")
+        lines.append(f"  return |{params}| {{")
+        lines += body(f, prog.get(f, []), "    ")
+        lines.append(f'    print("tag", tag);')
+        lines.append("  };")
+        lines.append("}")
+    lines += body(0, prog.get(0, []), "")
+    return "\n".join(lines) + "\n"
+
+
+def heap_stdout(evs):
+    """stdout the heap variant must print, from a (predicted or observed) event stream"""
+    out = []
+    for e in evs:
+        if e["ev"] == "recv" and e["res"] == "ok":
+            v = e["v"].strip("'")
+            out.append(f"f{e['f']} " + (v if v.startswith("s") else "s" + v))
+        elif e["ev"] == "recv" and e["res"] == "closed":
+            out.append(f"f{e['f']} nil")
+        elif e["ev"] == "complete":
+            out.append(f"tag T{e['f']}")
+    return out
